@@ -147,6 +147,8 @@ pub fn hostile() -> Vec<Vec<u8>> {
         b"x".to_vec(),
         b"-1".to_vec(),
         b"18446744073709551616".to_vec(),
+        b"9223372036854775807".to_vec(), // isize::MAX: parses as a length, cannot be allocated
+        b"1099511627776".to_vec(),       // 1 TiB
         vec![b'9'; 40],
         b"?".to_vec(),
         b"#".to_vec(),
@@ -467,7 +469,8 @@ pub fn for_each_opt(thorough: bool, pairs: bool, f: &mut dyn FnMut(Case)) {
         }
     }
     // 5. structural series: k header lines, several line shapes and buffer sizes
-    let lines: [&[u8]; 4] = [b"a\n", b"a\r\n", b"a: b\r\n", b"Content-Length: 1\r\n"];
+    // line shapes: no colon, bare LF, well-formed, numeric, not UTF-8, continuation (leading blank), colon only
+    let lines: [&[u8]; 9] = [b"a\n", b"a\r\n", b"a: b\r\n", b"Content-Length: 1\r\n", b"\xff\n", b"\xff\r\n", b" a\r\n", b"\ta: b\r\n", b":\r\n"];
     for (size, max_lines) in [(10000i64, 5000usize), (16000, 8000), (1_000_000, if thorough { 500_000 } else { 65_536 })] {
         let mut ks: Vec<usize> = vec![0, 1, 2, 3];
         let mut p = 4;
